@@ -193,6 +193,7 @@ def check(run: Run, prog: Program, model: Model, tier: str) -> None:
         "separator parameter in a recognised idiom; two entries whose heads coincide land in one group. These are "
         "necessary conditions of the round-trip property; the round trip on concrete mappings is not decided.")
     run.explanation += ' OPTIONAL-KEY-STORED: optional(k).key evaluates to k itself.'
+    run.explanation += " PASS-THROUGH: a path that returns the mapping as it came while holding an optional key has tested that key's name for the separator."
     run.rule_text = ("one obligation per clause and key form (plain / optional / `...`), read off the abstract result tables; "
                      "non-trivial = needed the evaluation of both loops of rollout and of the recursive call's arguments")
     f = prog.func("d42.utils._rollout.rollout")
@@ -237,6 +238,25 @@ def check(run: Run, prog: Program, model: Model, tier: str) -> None:
             for x in _walk(p.value):
                 _cut_term(x, rec)
 
+    # ---------------------------------------------------------------- PASS-THROUGH: a path that hands the mapping back as it
+    # came (a fast path) must have established, for an optional key too, that the key's NAME holds no separator
+    for p in paths:
+        if p.outcome != "return" or p.value is None:
+            continue
+        vk = p.value.key()
+        if vk not in ("keys", "call(builtins.dict, keys)", "mcall(keys, copy)", "{**keys}") and not vk.startswith("call(builtins.dict, keys"):
+            continue
+        facts = {k: b for k, _, b in p.facts}
+        opt_fact = next((b for k, b in facts.items() if k.startswith("isinstance(") and "optional" in k and "@keys" in k), None)
+        if opt_fact is not True:
+            continue
+        payload_tested = any(("attr(" in k and ", key)" in k and ("separator" in k or "sep" in k.lower())) for k in facts)
+        c = "rollout: mapping returned as it came (optional key)"
+        if payload_tested:
+            rec("PASS-THROUGH", c, "holds")
+        else:
+            rec("PASS-THROUGH", c, "violated", "a path returns the mapping unchanged although it holds an optional key whose name was never "
+                "tested for the separator: optional('a.b') stays flat")
     # ---------------------------------------------------------------- one-entry tables
     for p in paths:
         if p.outcome != "return" or not isinstance(p.value, DictV):
@@ -439,6 +459,7 @@ _WITNESS = {
     "LEAF-VALUE": "rollout({'a.b': v})['a']['b'] is not v",
     "ELLIPSIS-PASS": "rollout({...: ..., 'a.b': 1}) loses the `...: ...` entry",
     "GROUP-GUARD": "rollout({'a.b': 1, 'x': 0, 'a.c': 2}) != {'a': {'b': 1, 'c': 2}, 'x': 0}",
+    "PASS-THROUGH": "rollout({'id': 1, optional('meta.deleted_at'): None}) comes back unchanged",
     "OPTIONAL-KEY-STORED": "rollout({optional('user. nick.value'): 1, 'user. nick.kind': 2}) splits the group ' nick' in two",
     "OPTIONAL-KEY-EQ": "class F(str, Enum): ZIP = 'zip'; rollout({optional('a.zip'): 1}) != {'a': {optional(F.ZIP): 1}}",
 }
@@ -516,6 +537,9 @@ def _group_guard(run: Run, prog: Program, model: Model, f: FuncInfo, rec: Any) -
 
 U = "d42/utils/_rollout.py"
 MUTANTS = [
+    {"name": "fast path returns a mapping without compound str keys as it came (seeded C18-L)", "rule": "PASS-THROUGH",
+     "edits": [("d42/utils/_rollout.py", "def rollout(", "def _flat(keys: Any, separator: str) -> bool:\n    for key, val in keys.items():\n        if isinstance(key, str):\n            if separator in key:\n                return False\n        elif not isinstance(key, optional):\n            return False\n        if isinstance(val, dict):\n            return False\n    return True\n\n\ndef rollout("),
+               ("d42/utils/_rollout.py", "    updated: ", "    if _flat(keys, separator):\n        return dict(keys)\n    updated: ")]},
     {"name": "optional() strips whitespace from string keys (seeded C18-J)", "rule": "OPTIONAL-KEY-STORED",
      "edits": [("d42/declaration/types/_optional.py", "        self._key = key\n", "        self._key = key.strip() if isinstance(key, str) else key\n")]},
     {"name": "optional equality also compares the classes of the keys", "rule": "OPTIONAL-KEY-EQ",
